@@ -23,8 +23,8 @@ type c05Input struct {
 	Kind   string `json:"kind"` // stmt decl field spec case
 	Before []int  `json:"before"`
 	After  []int  `json:"after"`
-	Start  []int  `json:"start"` // 0 none, 1 line comment (a "\n" Start decoration after spacing is an extra line break by design: "// c", "\n" is how a blank line after a comment is stored)
-	End    []int  `json:"end"`   // 0 none, 1 line comment, 2 "\n"
+	Start  []int  `json:"start"`           // 0 none, 1 line comment (a "\n" Start decoration after spacing is an extra line break by design: "// c", "\n" is how a blank line after a comment is stored)
+	End    []int  `json:"end"`             // 0 none, 1 line comment, 2 "\n"
 	Inner  []int  `json:"inner,omitempty"` // stmt lists: Before of the expression inside the statement (it starts at the same position): 0 None, 1 NewLine -- spacing is not additive
 }
 
